@@ -13,8 +13,10 @@ def main():
     try: ex = ex_mod.explore(pool, fn, max_paths=maxp, deadline=time.time() + deadline)
     finally: pool.terminate(); pool.join()
     print("paths", ex.paths, ex.status, "exhaustive", ex.exhausted, "steps", ex.steps, "queries", ex.queries, "solver %.1fs wall %.1fs" % (ex.solver_time, time.time() - t))
+    print("tags", sorted(ex.tags.items(), key=lambda kv: -kv[1])[:45])
     print("covers", sorted(ex.covers)); print("unknown branches", ex.unknown_branches)
     for k, v in list(ex.unsupported.items())[:12]: print("UNSUPPORTED x%d: %s" % (v, k[:300]))
+    print("unsupported tags", getattr(ex, "unsupported_tags", {}))
     bad = {c: v for c, v in ex.checks.items() if v.get('violated') or v.get('unknown')}
     print("checks", len(ex.checks), "bad", bad)
     seen = set()
